@@ -170,3 +170,6 @@ extern crate verif_std as std;
 #[prelude_import]
 #[allow(unused_imports)]
 use std::prelude::rust_2021::*;
+// the same for paths that start with `core::` (`core::sync::atomic`, `core::hint::spin_loop`)
+#[cfg(ndarray_interp_verif)]
+extern crate verif_core as core;
